@@ -1,5 +1,6 @@
 import Nstd.Life.LemmasStableOps
 import Nstd.Life.LemmasOps
+import Nstd.Life.LemmasBlk
 /-
   Property theorems for C05: elements of List, Map, MultiMap, HashMap, HashSet, PoolList and PoolMap
   never move while they live; swap hands the elements over without relocating them; the pool
@@ -83,6 +84,14 @@ theorem swap_hands_over (st st' : State) (c d : Var) (he : exec st (.swap c d) =
       · subst hcd; simp [upd_same]
       · simp [upd_same, upd_other _ _ _ _ hcd]
   · rw [if_neg hv] at he; cases he
+
+/-- C05 `blocks_stay`: the item blocks (the memory the element addresses point into) are allocated once and
+    released only by the destructor of the container: in every reachable state every step that is not a
+    container destructor or `Array::reserve` keeps every allocated block allocated - insert, remove, clear, swap
+    never free a block, so element addresses stay valid memory for the whole life of the container. -/
+theorem blocks_stay (ops : List Op) (m : Micro) (hm : m.releases = false) (st' : State)
+    (he : exec (run init ops) m = some st') : ∀ b n, (run init ops).blk b = some n → st'.blk b = some n :=
+  exec_blkKept (reach_ok ops).1 m hm he
 
 /-- C05 `pool_in_place` (micro-step level): the steps the PoolList / PoolMap operations consist of
     (`append` constructs the element in place from plain arguments; `remove`, `clear`, destructor, swap)
